@@ -1,1 +1,22 @@
-fn main(){}
+mod c15;
+mod c16;
+use vcore::Report;
+
+fn main() {
+    let id = std::env::args().nth(1).unwrap_or_default();
+    let id = if id == "replay" {
+        let f = std::env::args().nth(2).unwrap_or_default();
+        let v: serde_json::Value = serde_json::from_str(&std::fs::read_to_string(&f).unwrap_or_default()).unwrap_or_default();
+        v["property"].as_str().unwrap_or("").to_string()
+    } else {
+        id
+    };
+    match id.as_str() {
+        "C15" => c15::main(Report::from_args("exploration")),
+        "C16" => c16::main(Report::from_args("exploration")),
+        _ => {
+            eprintln!("MACHINERY: interp serves C15, C16");
+            std::process::exit(2)
+        }
+    }
+}
